@@ -2,6 +2,7 @@ package rules
 
 import (
 	"fmt"
+	"go/constant"
 	"go/types"
 
 	"golang.org/x/tools/go/ssa"
@@ -381,6 +382,30 @@ func c08defaults(c *Ctx, rd *reader, rule string) {
 					v := strip(ev.Args[len(ev.Args)-1])
 					if v.Kind == core.KParam && v.Ref == fcm.Params[0] && ev.Args[len(ev.Args)-2] == p.Results[0] {
 						put = true
+					}
+				}
+			}
+			// or the two bytes stored individually: buf[0] = byte(code >> 8), buf[1] = byte(code) — decided by
+			// evaluating the stored terms for sample codes covering both bytes
+			if !put {
+				b0 := storedAt(p, p.Results[0], p.X.T.Int(0), len(p.Events))
+				b1 := storedAt(p, p.Results[0], p.X.T.Int(1), len(p.Events))
+				if b0 != nil && b1 != nil {
+					put = true
+					for _, code := range []int64{0, 1, 255, 256, 1000, 1002, 1009, 4999, 0x1234, 0xfedc, 65535} {
+						leaf := func(t *core.Term) (constant.Value, bool) {
+							if t.Kind == core.KParam && t.Ref == fcm.Params[0] {
+								return constant.MakeInt64(code), true
+							}
+							return nil, false
+						}
+						v0, ok0 := p.X.Eval(b0, leaf)
+						v1, ok1 := p.X.Eval(b1, leaf)
+						g0, _ := constant.Int64Val(v0)
+						g1, _ := constant.Int64Val(v1)
+						if !ok0 || !ok1 || g0&0xff != (code>>8)&0xff || g1&0xff != code&0xff {
+							put = false
+						}
 					}
 				}
 			}
